@@ -33,6 +33,10 @@ enum CbAct { A_NONE, A_CANCEL_NEXT, A_NEW_REQ, A_FREE_CONN, A_BREAK_TEARDOWN, A_
 const char *FN[] = {"none", "eof", "rst", "stall", "cancel-active", "cancel-queued", "free-conn", "teardown"};
 const char *AN[] = {"none", "cancel-next", "new-request", "free-conn", "break+teardown"};
 
+const char *K_UAF_CLEANUP = "asan:heap-use-after-free@evhttp_connection_cb_cleanup";
+const char *K_RETRY_TIMER = "C27/fatal-event_queue_remove_timeout";
+const char *K_STUCK = "C27/request-after-exhausted-retries-never-dispatched";
+
 struct Plan {
   int nreq = 1; bool post[3] = {false, false, false}; int retries = 0; int refuse_first = 0; bool refuse_after_fault = false;
   int resp_kind = 0;        // 0 Content-Length keep-alive, 1 chunked, 2 Connection: close + Content-Length, 3 close-delimited
@@ -47,26 +51,37 @@ struct RunA {
   size_t cur_off = 0;               // bytes of the current response already sent
   size_t sent_on_fault_conn = 0;
   bool fault_fired = false, stalled = false, teardown = false, listening = false;
-  bool act_done = false;
+  bool act_done = false, exhausted = false;
+  std::vector<bool> after_exh;      // per request: made after the retries had been used up
   std::vector<struct evhttp_request *> owned;   // requests taken over with evhttp_request_own(); freed by the harness outside the callback
   void free_owned() { for (auto *q : owned) evhttp_request_free(q); owned.clear(); }
   RunA(const Plan &pl, long k) : p(pl), fault_at(k) {}
 
   static void on_complete(hc::World *w, ReqRec *r, struct evhttp_request *req) {
     RunA *me = (RunA *)w->user; const Plan &p = me->p;
+    if (req && r->code == 0 && p.retries > 0) me->exhausted = true;   // completion from the connect-failure path after the retries were used up
     if (p.own && req && r->cb_calls == 1) { evhttp_request_own(req); me->owned.push_back(req); }   // documented: take ownership in the callback, free explicitly later
     if (me->act_done || p.act == A_NONE || r->idx != p.act_req || r->cb_calls != 1) return;
     me->act_done = true;
     switch (p.act) {
       case A_CANCEL_NEXT: { size_t j = (size_t)r->idx + 1; if (j < w->recs.size()) me->cancel(w->recs[j], "in-callback"); break; }
-      case A_NEW_REQ: if (w->evcon) me->make(false); break;
-      case A_FREE_CONN: me->free_conn("in-callback"); break;
+      case A_NEW_REQ:
+        // listed finding: once the retries are used up, retry_cnt stays non-zero and evhttp_make_request() only queues
+        if (me->exhausted && verif_known(K_STUCK)) { verif_known_skipped(K_STUCK); break; }
+        if (w->evcon) me->make(false); break;
+      case A_FREE_CONN:
+        // listed finding: when the callback runs from the connect-failure path (request object with status 0), the library goes on
+        // using the connection after the callback returned
+        if (req && r->code == 0 && verif_known(K_UAF_CLEANUP)) { verif_known_skipped(K_UAF_CLEANUP); break; }
+        me->free_conn("in-callback"); break;
       case A_BREAK_TEARDOWN: me->teardown = true; w->stop = true; event_base_loopbreak(w->base); break;
       default: break;
     }
   }
   void cancel(ReqRec *r, const char *where) {
     if (!r->req || r->cb_calls || r->cancelled || r->abandoned) return;   // documented: not after its callback ran
+    // listed finding: cancelling the request at the head of the queue while the retry timer is pending re-initialises that timer
+    if (p.retries > 0 && (p.refuse_first > 0 || p.refuse_after_fault) && verif_known(K_RETRY_TIMER)) { verif_known_skipped(K_RETRY_TIMER); return; }
     TR("    %s: evhttp_cancel_request(#%d)", where, r->idx);
     struct evhttp_request *q = r->req; r->req = nullptr; r->cancelled = true;
     evhttp_cancel_request(q);
@@ -79,7 +94,7 @@ struct RunA {
     evhttp_connection_free(c);
   }
   void make(bool post) {
-    ReqRec *r = w.new_rec();
+    ReqRec *r = w.new_rec(); after_exh.push_back(exhausted);
     struct evhttp_request *req = evhttp_request_new(hc::World::done_cb, r);
     CHECK(req != nullptr, "harness/request-new", "evhttp_request_new failed");
     evhttp_request_set_error_cb(req, hc::World::err_cb);
@@ -186,7 +201,7 @@ struct RunA {
     if (p.refuse_first > 0) unlisten();
     evhttp_connection_set_retries(w.evcon, p.retries);
     evhttp_connection_set_timeout(w.evcon, 5);
-    for (int i = 0; i < p.nreq; i++) if (w.evcon) make(p.post[i]);
+    for (int i = 0; i < p.nreq; i++) if (w.evcon && !teardown) make(p.post[i]);
     serve();
     free_owned();
     if (!teardown) {
@@ -201,7 +216,7 @@ struct RunA {
 // true with probability num/den, false when the input bytes are exhausted
 bool rare(Src &s, uint32_t num, uint32_t den) { return s.below(den) >= den - num; }
 
-struct OutA { std::vector<ReqRec> recs; size_t sent_on_fault_conn = 0; bool fault_fired = false; int connects = 0; };
+struct OutA { std::vector<ReqRec> recs; std::vector<bool> after_exh; size_t sent_on_fault_conn = 0; bool fault_fired = false; int connects = 0; };
 
 OutA run_a(const Plan &p, long k) {
   OutA out;
@@ -209,6 +224,7 @@ OutA run_a(const Plan &p, long k) {
     RunA r(p, k);
     r.run();
     for (ReqRec *q : r.w.recs) out.recs.push_back(*q);
+    out.after_exh = r.after_exh;
     out.sent_on_fault_conn = r.sent_on_fault_conn; out.fault_fired = r.fault_fired; out.connects = (int)sim_sys_calls[SYS_CONNECT];
     bool torn = r.teardown;
     r.w.close_world();   // marks still-queued requests as abandoned, frees the connection, then the base
@@ -225,12 +241,13 @@ void check_a(const Plan &p, long k, const OutA &o, bool faultless) {
     if (r.cancelled) CHECK(r.cb_calls == 0, "C27/callback-after-cancel", "fault %s at %ld: request %d was cancelled before its callback ran, yet the completion callback ran %d time(s)%s", FN[p.fault], k, r.idx, r.cb_calls, show_a(o).c_str());
     else if (r.abandoned) CHECK(r.cb_calls <= 1, "C27/completed-twice", "fault %s at %ld: request %d completion callback ran %d times%s", FN[p.fault], k, r.idx, r.cb_calls, show_a(o).c_str());
     else {
-      CHECK(r.cb_calls >= 1, "C27/never-completed", "fault %s at byte %ld of connection %d (cb-action %s@%d, retries %d, refuse_first %d): request %d never had its completion callback run although the peer went away and 300 s passed%s", FN[p.fault], k, p.fault_conn, AN[p.act], p.act_req, p.retries, p.refuse_first, r.idx, show_a(o).c_str());
+      CHECK(r.cb_calls >= 1, (size_t)r.idx < o.after_exh.size() && o.after_exh[(size_t)r.idx] ? K_STUCK : "C27/never-completed", "fault %s at byte %ld of connection %d (cb-action %s@%d, retries %d, refuse_first %d): request %d never had its completion callback run although the peer went away and 300 s passed%s", FN[p.fault], k, p.fault_conn, AN[p.act], p.act_req, p.retries, p.refuse_first, r.idx, show_a(o).c_str());
       CHECK(r.cb_calls == 1, "C27/completed-twice", "fault %s at byte %ld of connection %d (cb-action %s@%d): request %d completion callback ran %d times%s", FN[p.fault], k, p.fault_conn, AN[p.act], p.act_req, r.idx, r.cb_calls, show_a(o).c_str());
     }
     CHECK(r.err_calls <= 1, "C27/error-callback-twice", "fault %s at %ld: request %d error callback ran %d times%s", FN[p.fault], k, r.idx, r.err_calls, show_a(o).c_str());
     if (r.err_calls && r.cb_calls) CHECK(r.err_before_cb, "C27/error-callback-after-completion", "request %d: error callback ran after the completion callback (documented: before)", r.idx);
-    if (r.success) CHECK(r.body == "r" + std::to_string(r.idx) && r.code == 200, "C27/response-of-another-request", "fault %s at %ld: request %d completed with status %d body '%s' (expected its own echo 'r%d')%s", FN[p.fault], k, r.idx, r.code, esc(r.body, 40).c_str(), r.idx, show_a(o).c_str());
+    // (a close-delimited response cut by the peer's close is a complete, shorter response: any prefix of the echo is legitimate there)
+    if (r.success) CHECK((p.resp_kind == 3 ? ("r" + std::to_string(r.idx)).compare(0, r.body.size(), r.body) == 0 : r.body == "r" + std::to_string(r.idx)) && r.code == 200, "C27/response-of-another-request", "fault %s at %ld: request %d completed with status %d body '%s' (expected its own echo 'r%d')%s", FN[p.fault], k, r.idx, r.code, esc(r.body, 40).c_str(), r.idx, show_a(o).c_str());
     // (after a close-delimited HTTP/1.0 response the implementation sends the next queued request on the connection the peer has just
     //  closed and reports EOF for it; exactly-once still holds, so only the first request is required to succeed there)
     if (faultless && !r.cancelled && !r.abandoned && (p.resp_kind != 3 || r.idx == 0)) CHECK(r.success, "C27/faultless-exchange-failed", "no fault, no refusal: request %d did not succeed%s", r.idx, show_a(o).c_str());
@@ -370,13 +387,22 @@ int leg_b(Src &s) {
   return p.victim < p.maxc;   // the disconnecting client was one that is actually being served
 }
 
-void quiet_log(int, const char *) {}
+char g_last_err[256];
+void quiet_log(int sev, const char *msg) { if (sev >= EVENT_LOG_ERR) { snprintf(g_last_err, sizeof g_last_err, "%s", msg); } }
+// event_errx() and friends: an internal consistency error of the library (it would exit(1) next)
+void fatal_cb(int) {
+  std::string fn(g_last_err); size_t c = fn.find(':'); if (c != std::string::npos) fn.resize(c);
+  for (auto &ch : fn) if (!isalnum((unsigned char)ch) && ch != '_') ch = '_';
+  std::string key = "C27/fatal-" + fn;
+  VERIF_FAIL(key.c_str(), "libevent reported a fatal internal error: %s", g_last_err);
+}
 }  // namespace
 
 extern "C" int LLVMFuzzerInitialize(int *, char ***) {
   sim_mem_install();
   signal(SIGPIPE, SIG_IGN);
   event_set_log_callback(quiet_log);
+  event_set_fatal_callback(fatal_cb);
   return 0;
 }
 
